@@ -3,7 +3,7 @@ package log
 import "time"
 
 //verif:witness H_C08_fileline full truncated
-//verif:bound C08 quick GetFileLine: width W an arbitrary int (64-bit), file name arbitrary bytes of length 0..12, line 7 and 12345
+//verif:bound C08 quick GetFileLine: width W an arbitrary int (64-bit), file name arbitrary bytes of length 0..12, line 7 and 12345; then the same call site through a second layout with another arbitrary width
 //verif:bound C08 thorough GetFileLine: width W an arbitrary int (64-bit), file name arbitrary bytes of length 0..40, line 7 and 12345
 
 func H_C08_fileline() {
@@ -23,6 +23,14 @@ func H_C08_fileline() {
 	got := l.GetFileLine(&Event{File: f, Line: line}) // real code; a run-time panic is a path outcome
 	vObserve("fileLine", got)
 	full := f + ":" + lineStr
+	vFileLineSpec(got, full, w)
+	// the same call site shown by a second layout with its own, unrelated width
+	w2 := vInt("W2")
+	l2 := &JSONLayout{BaseLayout{FileLineLength: w2}}
+	vFileLineSpec(l2.GetFileLine(&Event{File: f, Line: line}), full, w2)
+}
+
+func vFileLineSpec(got, full string, w int) {
 	if len(full) > w {
 		keep := 0 // max(W-3, 0) without wrap-around for W near the minimum int
 		if w > 3 {
@@ -190,6 +198,31 @@ func H_C08_sequence() {
 		vAssert(string(out) == "[INFO][2025-06-01T12:30:45.123][file.go:10] _t_x||msg=hello||n=1||s=[1,2]\n", "text-line-of-a-later-event-is-its-own")
 	} else {
 		vAssert(string(out) == "{\"level\":\"info\",\"time\":\"2025-06-01T12:30:45.123\",\"fileLine\":\"file.go:10\",\"tag\":\"_t_x\",\"msg\":\"hello\",\"n\":1,\"s\":[1,2]}\n", "json-line-of-a-later-event-is-its-own")
+	}
+	vReach("end")
+}
+
+//verif:witness H_C08_pooled end
+//verif:bound C08 all object reuse across events: three events with scalar, array and object fields through one text layout (optionally a JSON-layout line in between), sync.Pool.Get returning any pooled object or a fresh one, the buffer-reuse cap an arbitrary int32: each text line is exactly what the event yields alone
+func H_C08_pooled() {
+	restore := vSingleProc()
+	defer restore()
+	vOpt("poolany", 1)
+	savedCap := BufferCap.Load()
+	BufferCap.Store(vInt32("bufferCap"))
+	defer BufferCap.Store(savedCap)
+	tl := &TextLayout{BaseLayout{FileLineLength: 48}}
+	jl := &JSONLayout{BaseLayout{FileLineLength: 48}}
+	between := vChoose("jsonBetween", 2) == 1
+	for i := 1; i <= 3; i++ {
+		e := &Event{Level: InfoLevel, Time: vFixedTime, File: "file.go", Line: 10, Tag: "_t_x"}
+		e.Fields = []Field{Int("n", i), Ints("s", []int{i, i}), Object("o", Int("p", i)), Msg("m")}
+		out := append([]byte(nil), tl.ToBytes(e)...)
+		d := string([]byte{byte('0' + i)})
+		vAssert(string(out) == "[INFO][2025-06-01T12:30:45.123][file.go:10] _t_x||n="+d+"||s=["+d+","+d+"]||o={\"p\":"+d+"}||msg=m\n", "text-line-is-the-events-own-whatever-the-pools-hand-back")
+		if between {
+			jl.ToBytes(e)
+		}
 	}
 	vReach("end")
 }
